@@ -622,7 +622,21 @@ def check_stage_files_contiguous(ctx, m) -> None:
     for lp in loops:
         it = lp.iter
         bound = match.resolve_local(dc, it.args[0]) if isinstance(it, ast.Call) and call_name(it) == "range" and len(it.args) == 1 else None
-        contiguous = bound is not None and any(isinstance(x, ast.Call) and call_name(x) in ("max", "len") for x in ast.walk(bound))
+        # len(X) counts the highest index + 1 only when X has an entry per index: a mapping keyed by the stages that HAVE components
+        # (X = {} filled with X[<stage>] = ..) is sparse, its length is the number of non-empty stages (seed C19-13)
+        def sparse(x: ast.AST) -> bool:
+            if not isinstance(x, ast.Name):
+                return False
+            vals = match.assigned_value(dc, x.id)
+            mapping = any(isinstance(v, (ast.Dict, ast.DictComp)) or (isinstance(v, ast.Call) and (call_name(v) or "").split(".")[-1] in (
+                "dict", "defaultdict", "OrderedDict")) for v in vals)
+            keyed = any(isinstance(st, ast.Assign) and any(isinstance(t, ast.Subscript) and isinstance(t.value, ast.Name) and t.value.id == x.id
+                                                          and not isinstance(t.slice, ast.Constant) for t in st.targets)
+                        for st in source.walk_own(dc))
+            return mapping or keyed
+        contiguous = bound is not None and any(
+            isinstance(x, ast.Call) and (call_name(x) == "max" or (call_name(x) == "len" and x.args and not sparse(x.args[0])))
+            for x in ast.walk(bound))
         ok = contiguous or not requires
         ctx.ob(RID, lp, ok,
                "a stage file is written for every index below the highest stage" if contiguous else
